@@ -407,7 +407,17 @@ func ruleResultFresh(w *World, r *Recorder, rule string, fn *ssa.Function, name 
 // the original rule so that keys stay distinct). A property whose statement
 // presupposes another's ("all C01 rules met", "encoding is faithful") decides
 // that part with the same rule instances.
+var importDepth int
+
 func importRules(w *World, r *Recorder, from func(*World, *Recorder) propInfo, newRule string, keep func(*Oblig) bool) {
+	// imports do not nest: no import keeps an obligation that the presupposed
+	// property itself imported, and two properties may import from each other
+	// (C02-V7 <- C19, C19-Y13 <- C02)
+	if importDepth > 0 {
+		return
+	}
+	importDepth++
+	defer func() { importDepth-- }()
 	sub := NewRecorder(r.Property)
 	from(w, sub)
 	n := 0
